@@ -62,8 +62,8 @@ def run(ctx, which):
         bad_behaviours = 0
         # a violation ends TLC's run: cut the offending behaviour out and validate
         # the rest, so that one (possibly known) finding does not hide the others
-        for attempt in range(12):
-            pp = ctx.path("cur.ndjson")
+        pp = ctx.path("cur.ndjson")
+        for attempt in range(200):
             vlib.write_ndjson(pp, recs)
             ok, l, inv, tout = ctx.validate("ServerStoreTrace", cfg, pp, timeout=900, workers=1)
             if ok:
@@ -75,6 +75,8 @@ def run(ctx, which):
                           "recorded %s trace (mode %s) violates %s at event %d: %s" % (kind, mode, inv, l, bad),
                           {"mode": mode, "kind": kind, "events": _cut(recs, l)})
             bad_behaviours += 1
+            if len(ctx.violations) >= 4:
+                break  # enough unlisted violations to report; stop exploring this trace
             s = l - 1
             while s > 0 and recs[s]["ev"] != "reset":
                 s -= 1
@@ -85,7 +87,7 @@ def run(ctx, which):
             if not recs:
                 break
         else:
-            raise vlib.Inconclusive("more than 12 violating behaviours in one trace (%s/%s)" % (mode, kind))
+            raise vlib.Inconclusive("more than 200 violating behaviours in one trace (%s/%s)" % (mode, kind))
         ctx.log("validated %s/%s: %d events, %d violating behaviours cut" % (mode, kind, len(recs), bad_behaviours))
         nval += max(0, nb - bad_behaviours)
         if bad_behaviours or not recs:
